@@ -1,4 +1,5 @@
 import GlyModel.Generated.Tables
+import GlyProofs.Mono.AssembleSound
 import GlyProofs.Mono.ReactLemmas
 /-
   C04 — A modification adds its named group at its named carbon, and only that. (Property theorems only.)
@@ -137,4 +138,29 @@ theorem C04_non_plain_keys :
     ((Gen.functionalGroups.map (·.1)).filter (fun k => !plainKeys.contains k)).all (fun k =>
       ["", "N", "NFo", "P", "PhNO2", "Phyt", "Piv", "Poc", "Pen", "Oct", "Ccr", "Phthi"].contains (String.ofList k)) = true := by
   decide +kernel
+/-! ### the string half of `assemble_chains`: placeholders replaced by fragments = graft of the fragments -/
+
+open Gly.React Gly.Smi in
+/-- Soundness of the certificate the driver evaluates on **every observed `assemble_chains` call** (the SMILES with placeholder
+    atoms RDKit wrote, `side_chains`, the ring offset, and the residue SMILES the code stored): that SMILES denotes the
+    residue-with-placeholders molecule with every functional-group fragment grafted at its placeholder atom – the group sits
+    where the placeholder sat, and every other atom, bond event, ordered neighbour list and stereo mark of the residue is
+    unchanged – and no placeholder atom is left. (Instance of the whole-tree theorem: the fragments are leaf children.) -/
+theorem C04_certified_assemble (marked : List Char) (chains : List (List Char × List Char)) (offset : Nat) (final : List Char)
+    (h : certifyAssemble marked chains offset final = true) :
+    ∃ t tf M, assembleTree marked chains offset = some t ∧ tokenize final = some tf ∧
+      sem tf = some M ∧ specTree t = some M ∧ ∀ a ∈ M.atoms, isMkPlaceholder a = false :=
+  certifyAssemble_sound marked chains offset final h
+
+open Gly.React in
+/-- Non-vacuity on the strings observed for `Gal3S6Ac` (two placeholders, explicit-hydrogen carbon next to one of them), and the
+    Model's text is the code's text. -/
+theorem C04_assemble_example :
+    let marked := "O1C(O)[C@H](O)[C@@H]([AsH2])[C@@H](O)[C@H]1[CH2][SnH]".toList
+    let chains : List (List Char × List Char) :=
+      [([], []), ([], []), ([], []), ("OS(=O)(=O)O".toList, []), ([], []), ([], []), ("OC(=O)C".toList, [])]
+    let final := "O1C(O)[C@H](O)[C@@H](OS(=O)(=O)O)[C@@H](O)[C@H]1COC(=O)C".toList
+    assembleText marked chains 0 = final ∧ certifyAssemble marked chains 0 final = true := by
+  decide +kernel
+
 end Gly.Props.C04
